@@ -27,6 +27,7 @@ everything *around* the digest:
 | `inlineSlot`               | `reader/signed_many.rs  SignaturePacket::new_hasher` + `fill_inner` (the hash slot of one signature of a signed message: reader error, `None`, or the digest) |
 | `verifyInline`             | `message/types.rs  Message::verify_nested_explicit` (+ `check_inline_verification_preconditions`) |
 | `verifyMessage`            | `Message::verify` / `verify_read` / `verify_nested` for one signature       |
+| `pairHeads`, `pairMessage`, `verifyMessageWire` | `fill_inner`: `one_pass_signatures.pop()` per One-Pass packet that has a hasher (positional pairing), `hashes` / `signatures` as `verify_nested_explicit` indexes them |
 | `inlineSlotsPre`, `verifyMessageAt` | `SignatureManyReader::new` (one hasher per packet, mode from that packet's type) + `verify_nested_explicit(i, key)` on a message with several signatures |
 | `verifySubkeyBindings`     | `signed_key/{public,secret}.rs  Signed{Public,Secret}SubKey::verify_bindings` |
 | `verifyUser`               | `types/user.rs  SignedUser::verify_bindings` / `SignedUserAttribute::verify_bindings` |
@@ -432,6 +433,87 @@ def verifyMessageAt (P : Prims) (k : VKey) (sigs : List MsgSig) (chunks : List B
     match sigs[i]?, slots[i]? with
     | some m, some slot => verifyInline P k m.sig (slot.map fun ap => P.hash ap.1 ap.2)
     | _, _ => .err .noneSlot
+
+/-! ### pairing One-Pass headers with the trailing signatures
+
+`fill_inner`, after the literal data: the reader takes the next `n` Signature packets from the
+stream, `n` = number of One-Pass Signature packets in front (`one_pass_signatures`, a `Vec` in wire
+order), then walks the hashers in order of appearance and for every One-Pass packet **whose hasher
+exists** takes `one_pass_signatures.pop()` - the LAST remaining one.  The pairing is positional:
+it does not look at which trailing signature would `matches` the header (that is asked only
+afterwards, of the popped one).  A packet without hasher (One-Pass packet with an unsupported hash
+algorithm, prefixed signature of unknown version) gets the slot `None`, pops nothing and adds
+nothing to `signatures`. -/
+
+/-- a Signature / One-Pass Signature packet in front of the literal data -/
+inductive MsgHead where
+  | prefixed (s : Sig)
+  | onePass (o : Ops)
+deriving DecidableEq, Repr
+
+def MsgHead.isOnePass : MsgHead → Bool
+  | .onePass _ => true
+  | .prefixed _ => false
+
+/-- does the head take a trailing signature from the stack? -/
+def MsgHead.pops (hk : Byte → Bool) : MsgHead → Bool
+  | .onePass o => hk o.hash
+  | .prefixed _ => false
+
+def nOnePass (heads : List MsgHead) : Nat := (heads.filter MsgHead.isOnePass).length
+
+/-- the loop over `hashers.zip(packets)`; `rs` is the stack of trailing signatures with its top
+first (`pop()` = head of `rs`).  `none` as a whole: "missing signature packet"; an entry `none`: a
+packet without hasher. -/
+def pairHeads (hk : Byte → Bool) : List MsgHead → List Sig → Option (List (Option MsgSig))
+  | [], _ => some []
+  | .prefixed s :: r, rs =>
+    (pairHeads hk r rs).map fun l => (if s.known then some { ops := none, sig := s } else none) :: l
+  | .onePass o :: r, rs =>
+    if !hk o.hash then (pairHeads hk r rs).map fun l => none :: l
+    else
+      match rs with
+      | [] => none
+      | s :: rs' => (pairHeads hk r rs').map fun l => some { ops := some o, sig := s } :: l
+
+/-- the first `n` trailing signatures in wire order are the stack, its top is the last of them -/
+def pairMessage (hk : Byte → Bool) (heads : List MsgHead) (trailing : List Sig) : Option (List (Option MsgSig)) :=
+  if trailing.length < nOnePass heads then none
+  else pairHeads hk heads (trailing.take (nOnePass heads)).reverse
+
+/-- `SignaturePacket::new_hasher` errors (they make `Message::from_bytes` fail, before anything is read) -/
+def headConstructionError (hk : Byte → Bool) : MsgHead → Option Guard
+  | .prefixed s =>
+    if !s.known then none
+    else if !hk s.cfg.hash then some .hashAlg
+    else if !saltSizeOk s.cfg then some .salt else none
+  | .onePass o =>
+    if hk o.hash && o.ver == Gen.sndOpsV6 && Gen.sdSaltLenOf o.hash.toNat != some o.salt.length then some .salt else none
+
+/-- `Message::verify_nested_explicit(i, key)` on a one-pass / prefixed / mixed signed message given
+as on the wire: the heads in order of appearance and the trailing Signature packets in wire order.
+`reader.hash(i)` comes from the slot list, `reader.signature(i)` from the list of the signatures
+that were attached (one shorter for every packet without hasher before `i`). -/
+def verifyMessageWire (P : Prims) (k : VKey) (heads : List MsgHead) (trailing : List Sig) (chunks : List Bytes)
+    (i : Nat) : Res :=
+  match heads.findSome? (headConstructionError P.hashKnown) with
+  | some g => .err g
+  | none =>
+    match pairMessage P.hashKnown heads trailing with
+    | none => .err .read
+    | some entries =>
+      let pres : List (Except Guard (Option (Byte × Bytes))) := entries.map fun
+        | none => .ok none
+        | some m => inlinePre P.hashKnown m.ops m.sig chunks
+      match collectSlots pres with
+      | .error g => .err g
+      | .ok slots =>
+        match slots[i]? with
+        | some (some ap) =>
+          match (entries.filterMap fun e => e.map (·.sig))[i]? with
+          | some s => verifyInline P k s (some (P.hash ap.1 ap.2))
+          | none => .err .noneSlot
+        | _ => .err .noneSlot
 
 /-! ## certificates: `verify_bindings` -/
 
